@@ -154,6 +154,11 @@ func (c *semanticTokensCache) delete(uri protocol.DocumentURI) {
 }
 
 func (s *Server) SemanticTokensFull(ctx context.Context, params *protocol.SemanticTokensParams) (*protocol.SemanticTokens, error) {
+	// a feature switched off in the configuration answers nothing, also when it
+	// was switched off after the capabilities were announced
+	if !s.getSettings().Features.SemanticTokens {
+		return nil, nil
+	}
 	doc, ok := s.GetDocument(params.TextDocument.URI)
 	if !ok {
 		return &protocol.SemanticTokens{Data: []uint32{}}, nil
@@ -174,6 +179,11 @@ func (s *Server) SemanticTokensFull(ctx context.Context, params *protocol.Semant
 }
 
 func (s *Server) SemanticTokensRange(ctx context.Context, params *protocol.SemanticTokensRangeParams) (*protocol.SemanticTokens, error) {
+	// a feature switched off in the configuration answers nothing, also when it
+	// was switched off after the capabilities were announced
+	if !s.getSettings().Features.SemanticTokens {
+		return nil, nil
+	}
 	doc, ok := s.GetDocument(params.TextDocument.URI)
 	if !ok {
 		return &protocol.SemanticTokens{Data: []uint32{}}, nil
@@ -193,6 +203,11 @@ func (s *Server) SemanticTokensRange(ctx context.Context, params *protocol.Seman
 }
 
 func (s *Server) SemanticTokensFullDelta(ctx context.Context, params *protocol.SemanticTokensDeltaParams) (any, error) {
+	// a feature switched off in the configuration answers nothing, also when it
+	// was switched off after the capabilities were announced
+	if !s.getSettings().Features.SemanticTokens {
+		return nil, nil
+	}
 	doc, ok := s.GetDocument(params.TextDocument.URI)
 	if !ok {
 		return &protocol.SemanticTokens{Data: []uint32{}}, nil
